@@ -17,7 +17,8 @@ ASSUMPTIONS = ['C locale (decimal point)', 'hand-written transliteration validat
 def corpus(ctx): return load_corpus(ctx['verif'], 'C04')
 
 def wf_c04(t, depth=0):
-    return printable(t) and finite_tree(t)
+    """the precondition of C04: printable, finite numbers, valueint = saturated (int)valuedouble (as the parser and the construction API set it)"""
+    return printable(t) and finite_tree(t) and all((x.ty & 0xFF) != T_NUMBER or x.vi == sat_int(x.vd) for x in all_nodes(t))
 
 def tree_depth(t): return 1 + max([tree_depth(c) for c in t.ch] or [0])
 
@@ -56,7 +57,7 @@ def generate(ctx):
     fixed = [PN(T_ARRAY, ch=[PN(T_STRING, vs=b'a"\x01\n\xff'), PN(T_NUMBER, vi=1, vd=1.5), PN(T_OBJECT, ch=[PN(T_ARRAY, key=b'k'), PN(T_OBJECT, key=b'')])]),
              PN(T_OBJECT, ch=[PN(T_STRING, vs=b'x' * 250, key=b'long'), PN(T_NUMBER, vi=0, vd=1e-5, key=b'n')]),
              PN(T_STRING, vs=bytes(range(1, 0x100))), PN(T_ARRAY), PN(T_OBJECT), PN(T_NULL), nested(12, 0), PN(T_ARRAY, ch=[PN(T_STRING, vs=b'y' * 254)]),
-             PN(T_ARRAY, ch=[PN(T_NUMBER, vi=INT_MIN, vd=-1.7976931348623157e308)] * 12)]
+             PN(T_ARRAY, ch=[PN(T_NUMBER, vi=-1234567, vd=-1234567.8901234567)] * 12 + [PN(T_NUMBER, vi=INT_MIN, vd=-1.7976931348623157e308)])]
     for t in fixed[:: (2 if quick else 1)]:
         L = len(py_render(t, True)); U = len(py_render(t, False))
         buffered(t, 'prebuffer-boundaries', pres=sorted({0, 1, L - 1, L, L + 1, U - 1, U, U + 1, 255, 256, 257}))
